@@ -174,6 +174,10 @@ pub enum TMut {
     /// the last child of a list is replaced by a copy of the list itself (a structure nested inside itself,
     /// e.g. a time choice whose value position holds another time choice)
     NestSelf(u16),
+    /// an integer re-encoded with n more leading bytes that do not change its value (00, or ff for a negative
+    /// signed one): fine where the field may be wider, a type error where its width is fixed (tags, unit,
+    /// scaler, checksum, seconds)
+    WidenLead(u16, u8),
 }
 
 pub fn tmut() -> impl Strategy<Value = TMut> {
@@ -193,6 +197,7 @@ pub fn tmut() -> impl Strategy<Value = TMut> {
         3 => (any::<u16>(), 0u8..9).prop_map(|(k, n)| TMut::KeepFirst(k, n)),
         2 => (any::<u16>(), 1u8..4).prop_map(|(k, n)| TMut::Append(k, n)),
         2 => any::<u16>().prop_map(TMut::NestSelf),
+        3 => (any::<u16>(), 1u8..3).prop_map(|(k, n)| TMut::WidenLead(k, n)),
     ]
 }
 
@@ -214,7 +219,7 @@ pub fn apply(nodes: &mut Vec<Node>, m: &TMut) -> &'static str {
         return "noop";
     }
     let x = match m {
-        TMut::Retype(k, _) | TMut::Resize(k, _, _) | TMut::Replace(k, _, _, _) | TMut::Drop(k) | TMut::Dup(k) | TMut::Insert(k, _) | TMut::SwapNext(k) | TMut::Wrap(k) | TMut::Unwrap(k) | TMut::SetByte(k, _) | TMut::Extra(k, _) | TMut::KeepFirst(k, _) | TMut::Append(k, _) | TMut::NestSelf(k) => *k,
+        TMut::Retype(k, _) | TMut::Resize(k, _, _) | TMut::Replace(k, _, _, _) | TMut::Drop(k) | TMut::Dup(k) | TMut::Insert(k, _) | TMut::SwapNext(k) | TMut::Wrap(k) | TMut::Unwrap(k) | TMut::SetByte(k, _) | TMut::Extra(k, _) | TMut::KeepFirst(k, _) | TMut::Append(k, _) | TMut::NestSelf(k) | TMut::WidenLead(k, _) => *k,
     };
     apply_at(nodes, pick(x, total), m)
 }
@@ -236,6 +241,7 @@ pub fn apply_at(nodes: &mut Vec<Node>, k: usize, m: &TMut) -> &'static str {
         TMut::KeepFirst(..) => "keep-first-children",
         TMut::Append(..) => "append-children",
         TMut::NestSelf(_) => "nest-in-itself",
+        TMut::WidenLead(..) => "widen-integer",
     };
     let m = m.clone();
     with_kth(nodes, k, &mut |parent: &mut Vec<Node>, i: usize| match &m {
@@ -302,6 +308,16 @@ pub fn apply_at(nodes: &mut Vec<Node>, k: usize, m: &TMut) -> &'static str {
                 items.truncate(*n as usize);
             }
         }
+        TMut::WidenLead(_, n) => {
+            if let Node::Prim { ty, data, .. } = &mut parent[i] {
+                if (*ty == TY_UINT || *ty == TY_INT) && !data.is_empty() {
+                    let lead = if *ty == TY_INT && data[0] & 0x80 != 0 { 0xff } else { 0x00 };
+                    for _ in 0..*n {
+                        data.insert(0, lead);
+                    }
+                }
+            }
+        }
         TMut::NestSelf(_) => {
             if let Node::List { items, .. } = &mut parent[i] {
                 if !items.is_empty() && items.len() <= 8 {
@@ -362,6 +378,9 @@ pub fn catalogue() -> Vec<TMut> {
         v.push(TMut::Append(0, n));
     }
     v.push(TMut::NestSelf(0));
+    for n in 1..=2u8 {
+        v.push(TMut::WidenLead(0, n));
+    }
     v
 }
 
